@@ -224,16 +224,16 @@ func parseKeysLeasesAndSignature(ls2 *LeaseSet2, data []byte) ([]byte, error) {
 // validateLeaseSet2MinSize validates that data meets minimum LeaseSet2 size requirements.
 // Returns error if data is too short to contain a valid LeaseSet2.
 func validateLeaseSet2MinSize(dataLen int) error {
-	if dataLen < LEASESET2_MIN_SIZE {
+	if dataLen < LEASESET2_ABSOLUTE_MIN_SIZE {
 		err := oops.
 			Code("lease_set2_too_short").
 			With("data_length", dataLen).
-			With("minimum_required", LEASESET2_MIN_SIZE).
-			Errorf("data too short for LeaseSet2: got %d bytes, need at least %d", dataLen, LEASESET2_MIN_SIZE)
+			With("minimum_required", LEASESET2_ABSOLUTE_MIN_SIZE).
+			Errorf("data too short for LeaseSet2: got %d bytes, need at least %d", dataLen, LEASESET2_ABSOLUTE_MIN_SIZE)
 		log.WithFields(logger.Fields{
 			"at":          "validateLeaseSet2MinSize",
 			"data_length": dataLen,
-			"min_size":    LEASESET2_MIN_SIZE,
+			"min_size":    LEASESET2_ABSOLUTE_MIN_SIZE,
 		}).Error(err.Error())
 		return err
 	}
